@@ -17,6 +17,7 @@ every syntax error has a non-empty message and a range inside the text on charac
 import TgModel.GrammarSumms
 import TgModel.Lemmas.ProgressSound
 import TgModel.Lemmas.GrammarEof
+import TgModel.Lemmas.ParserFinish
 
 namespace Tg.C02
 open Progress
@@ -79,9 +80,43 @@ theorem error_ranges_wellformed (defs : Defs) (recover : List TokenKind) (input 
       e.stop = byteLen pre + byteLen mid :=
   (inv_exec defs recover input fuel p _ s' (PState.inv_init input) h).errs
 
+/-- … and the same for everything `parse` reports: the errors of the grammar run followed by the
+error `ParserBase::finish` appends for a message left in the token source, which covers the empty
+piece at the very end of the text (`pre = input`, `mid = []`) -/
+theorem parse_error_ranges_wellformed (input : List Char) (r : Grammar.ParseResult)
+    (h : Grammar.parse input = .ok r) :
+    ∀ e ∈ r.errors, ∃ pre mid post, input = pre ++ mid ++ post ∧ e.start = byteLen pre ∧
+      e.stop = byteLen pre + byteLen mid := by
+  obtain ⟨s, hx, _, _, he, _⟩ := (Grammar.parse_ok_iff input r).mp h
+  intro e hmem
+  rw [he, List.mem_append, List.mem_reverse] at hmem
+  rcases hmem with hmem | hmem
+  · exact (inv_exec Grammar.defs Tables.recoverTokens input _ _ _ s (PState.inv_init input) hx).errs e hmem
+  · exact PState.endErrors_ok input e hmem
+
+/-- the message `ParserBase::finish` may append is one of the parked messages of the token source
+(lexer or preprocessor), hence one of the literals below -/
+theorem finish_message_is_parked (s : PState) (e : SynError) (h : e ∈ s.finish.errors) :
+    e ∈ s.errors ∨ (s.src.takeError).1 = some e.msg := by
+  unfold PState.finish at h
+  split at h
+  · split at h
+    · rename_i m src hte
+      simp only [List.mem_cons] at h
+      rcases h with rfl | h
+      · exact Or.inr (by rw [hte])
+      · exact Or.inl h
+    · exact Or.inl h
+  · exact Or.inl h
+
 /-- every message literal of the syntax crate is non-empty (table regenerated from
 lexer.rs / preprocessor.rs / parser.rs / grammar*.rs on every run) -/
 theorem messages_nonempty : Tables.messages.all (fun m => !m.isEmpty) = true := by decide +kernel
+
+/-- the message of an unterminated conditional — the one message the preprocessor parks without
+an `Error` token, so the one `ParserBase::finish` exists for — is among those literals (this ties
+the model's literal to the regenerated table: if the translator lost sight of it, this fails) -/
+theorem eof_message_in_table : eofMsg.toList ∈ Tables.messages := by decide +kernel
 
 /-- `expect(kind)` messages are "expected " followed by the kind's Debug name -/
 theorem expected_message_prefix (k : TokenKind) : expectedMsg k = "expected " ++ k.name := rfl
